@@ -250,6 +250,29 @@ def observe_jackknife(num, den, variants):
 
 
 # ----------------------------------------------------------------------------- TLC judge
+def volume(r):
+    """number of integers TLC has to hold for this record (memory guard for the JVM)"""
+    if r["kind"] == "blocking":
+        return 2 * len(r["w"]) + 40 * len(r["obs"])
+    if r["kind"] == "outliers":
+        return len(r["data"]) * len(r["data"][0]) + sum(len(o["mask"]) + sum(len(x) for x in o["rows"]) for o in r["obs"])
+    return 2 * len(r["num"]) + 40 * len(r["obs"])
+
+
+def batches(records, max_volume=2_500_000, max_count=12000):
+    out, cur, vol = [], [], 0
+    for r in records:
+        v = volume(r)
+        if cur and (vol + v > max_volume or len(cur) >= max_count):
+            out.append(cur)
+            cur, vol = [], 0
+        cur.append(r)
+        vol += v
+    if cur:
+        out.append(cur)
+    return out
+
+
 def judge(chk: Check, records, name="judge", nchunks=48, timeout=2400):
     """records: list of dicts with id, kind, cost (relative), ... -> {id: verdict}"""
     if not records:
